@@ -239,16 +239,23 @@ Record ainput := mkA {
   a_reserved : list Z;        (* reservedCPUs of the node reservation annotation *)
   a_sysexcl : list Z }.       (* system-QoS cpuset when it is exclusive, else [] *)
 
-(* cpuIdToPool: the last pod (in podMetas order) that lists the cpu wins *)
-Fixpoint pool_of (pods : list cpod) (c : Z) : Z :=
+(* cpuIdToPool: pods are visited in podMetas order; an entry that is LSE stays LSE, otherwise the
+   last pod that lists the cpu wins (repaired behaviour, fix 62333f7).  -1 stands for "listed by
+   a pod without QoS label" (map entry present with value ""), which the code treats like any
+   class other than LSR / LSE. *)
+Definition pool_entry (p : cpod) : Z := if c_lab p =? Q_NONE then -1 else c_lab p.
+Definition pool_step (c : Z) (cur : Z) (p : cpod) : Z :=
+  if memZ c (c_cpus p) then (if cur =? Q_LSE then cur else pool_entry p) else cur.
+Definition pool_of (pods : list cpod) (c : Z) : Z := fold_left (pool_step c) pods Q_NONE.
+
+(* the map as it was before the fix: plain last-writer-wins (kept for the regression examples) *)
+Fixpoint pool_of_old (pods : list cpod) (c : Z) : Z :=
   match pods with
   | [] => Q_NONE
-  | p :: t => let r := pool_of t c in
+  | p :: t => let r := pool_of_old t c in
               if negb (r =? Q_NONE) then r
-              else if memZ c (c_cpus p) then (if c_lab p =? Q_NONE then -1 else c_lab p) else Q_NONE
+              else if memZ c (c_cpus p) then pool_entry p else Q_NONE
   end.
-(* -1 stands for "listed by a pod without QoS label" (map entry present with value ""), which
-   the code treats like any class other than LSR / LSE *)
 
 Definition eligible (i : ainput) (p : proc) : bool :=
   negb (memZ (cpu p) (a_reserved i)) && negb (memZ (cpu p) (a_sysexcl i)).
